@@ -22,7 +22,7 @@ How to run things: the Python with all dependencies is /venv/bin/python. The ins
   cd {wt} && PYTHONPATH={wt}/src /venv/bin/python -c "import scippneutron; print(scippneutron.__file__)"   # must print a path under {wt}
   cd {wt} && PYTHONPATH={wt}/src /venv/bin/python -m pytest -q -p no:cacheprovider -x tests/<relevant dir>
 and finally the whole suite (about 4 minutes; some tests error because they need the network — those same tests also error without your change; ignore them, but no test that passes without your change may fail with it):
-  cd {wt} && PYTHONPATH={wt}/src /venv/bin/python -m pytest -q -p no:cacheprovider --timeout=900 2>&1 | tail -15
+  cd {wt} && PYTHONPATH={wt}/src /venv/bin/python -m pytest -q -p no:cacheprovider --timeout=900 -W ignore::pytest.PytestRemovedIn10Warning 2>&1 | tail -15
 Compare against the unmodified tree if in doubt which failures are pre-existing — toggle your change with `git apply -R SEED/patch.diff` / `git apply SEED/patch.diff`; do NOT use `git stash` (the stash is shared between all worktrees of this repository and other agents use it too).
 
 Deliverables, all inside {wt}/SEED/ (create the directory):
